@@ -1079,7 +1079,7 @@ class MindsDBParser(Parser):
     @_('select OFFSET constant')
     def select(self, p):
         select = p.select
-        if select.offset is not None:
+        if getattr(select, 'offset', None) is not None:
             raise ParsingException(f'OFFSET already specified for this query')
         ensure_select_keyword_order(select, 'OFFSET')
         if not isinstance(p.constant.value, int):
